@@ -435,6 +435,45 @@ Fixpoint recv_udp_dst (e : endian) (anc : list (N * N * bytes)) : result (option
     else recv_udp_dst e r
   end.
 
+(* What recvmsg(bufsize, ancbufsize) hands back for the control messages the kernel has
+   for a datagram: Linux put_cmsg() (net/core/scm.c), one call per message, in order.
+   `hdr` = sizeof(struct cmsghdr) = CMSG_LEN(0) (16 on 64-bit Linux, 12 on 32-bit),
+   `al` = the alignment of CMSG_ALIGN (sizeof(long)), `room` = what is left of the
+   buffer the caller offered (msg_controllen).
+     - room < hdr: nothing is stored, MSG_CTRUNC;
+     - hdr + len(data) > room: the DATA IS CUT to room - hdr bytes, MSG_CTRUNC;
+     - the buffer advances by min(CMSG_SPACE(len), room).
+   CPython's recvmsg returns the (possibly cut) data of every stored message, and
+   msg_flags.  The result is (ancdata, MSG_CTRUNC set).  Validated against the running
+   kernel by the harness (loopback sockets with IP(V6)_RECVORIGDSTADDR, every buffer
+   size around the boundaries).                                                       *)
+Definition cmsg_align (al n : N) : N := ((n + al - 1) / al) * al.
+Definition cmsg_space (hdr al n : N) : N := cmsg_align al hdr + cmsg_align al n.
+
+Fixpoint put_cmsgs (hdr al room : N) (msgs : list (N * N * bytes)) : list (N * N * bytes) * bool :=
+  match msgs with
+  | [] => ([], false)
+  | (lvl, typ, d) :: r =>
+    if room <? hdr then (fst (put_cmsgs hdr al room r), true)
+    else
+      let fits := hdr + lenN d <=? room in
+      let d' := if fits then d else takeN (room - hdr) d in
+      let used := N.min (cmsg_space hdr al (lenN d)) room in
+      let t := put_cmsgs hdr al (room - used) r in
+      ((lvl, typ, d') :: fst t, negb fits || snd t)
+  end.
+
+(* the data room of the control buffer recv_udp offers: socket.CMSG_SPACE(24), tproxy.py:23
+   (the harness observes the number the real code passes and compares) *)
+Definition ANC_DATA_ROOM : N := 24.
+
+(* tproxy.recv_udp on a kernel-like socket: the destination decoded from what the kernel
+   stores into a control buffer of `room` bytes, and the MSG_CTRUNC flag of that call
+   (which recv_udp does not look at: `data, ancdata, _, srcip = listener.recvmsg(...)`) *)
+Definition recv_udp_kernel (e : endian) (hdr al room : N) (msgs : list (N * N * bytes))
+  : result (option (bytes * N)) * bool :=
+  let t := put_cmsgs hdr al room msgs in (recv_udp_dst e (fst t), snd t).
+
 (* getsockname() of a transparent (tproxy) socket / getpeername(): CPython's
    makesockaddr = (inet_ntop text, ntohs port) *)
 Definition sockname4 (a : bytes) (p : N) : bytes * N := (fmt4 a, p).
